@@ -1,6 +1,6 @@
 """C13 - with tablebase knowledge the engine reports exact results and keeps them.
 Real texel, 'go infinite' on <=4-men pawnless roots until tbhits appear, stop; scores and the played move are
-judged against DTM dumps that were verified (Bellman sweep of C12) in this same run."""
+judged against an independent retrograde solution of the class (h_tb solve), self-checked in this same run."""
 import concurrent.futures
 import os
 import random
@@ -15,9 +15,12 @@ NET = "material_1"
 _tl = threading.local()
 
 
+ORACLE_TAG = "C13"
+
+
 class Dtm:
     def __init__(self, classes):
-        self.p = subprocess.Popen([B.exe("rel", "h_tb"), "query"] + [c12.dump_path(c) for c in classes],
+        self.p = subprocess.Popen([B.exe("rel", "h_tb"), "query"] + [c12.ind_path(c, ORACLE_TAG) for c in classes],
                                   stdin=subprocess.PIPE, stdout=subprocess.PIPE, text=True, bufsize=1)
 
     def ask(self, fen):
@@ -159,7 +162,7 @@ def worker(args):
     cls = rnd.choice(classes)
     try:
         for i in range(nroots):
-            if rnd.random() < .25:
+            if rnd.random() < .12:
                 cls = rnd.choice(classes)
             base = random_root(rnd, cls, ref)
             if not base:
@@ -184,7 +187,8 @@ def worker(args):
                     break
             st = eng.nlines()
             send("go infinite")
-            hit = eng.wait_for(lambda l: " tbhits " in l, st, 20)
+            # tablebase output, or the search ran out of depth without needing a probe (clock at 99: everything is a 50-move draw)
+            hit = eng.wait_for(lambda l: " tbhits " in l or l.startswith("info depth 100"), st, 20)
             if hit:
                 time.sleep(0.05)
             send("stop")
@@ -217,18 +221,19 @@ def run(c):
     core.ensure_nets([NET])
     rnd = random.Random(c.seed)
     three = ["KQK", "KRK", "KBK", "KNK", "KKQ", "KKR"]
-    four = ["KQKR", rnd.choice([x for x in c12.FOUR if x != "KQKR"])] if quick else list(c12.FOUR)
+    black_major = ["KNKR", "KBKR", "KRKR", "KNKQ", "KBKQ", "KRKQ", "KQKQ"]      # the table is not colour symmetric: black mating material vs a white piece
+    four = (["KQKR", rnd.choice(black_major), rnd.choice([x for x in c12.FOUR if x != "KQKR" and x not in black_major])]) if quick else list(c12.FOUR)
     all_classes = three + four
-    st, sres = c12.sweep(c, all_classes)     # verifies the oracle tables in this run (violations there are C12's, reported here as harness failure)
-    if any(r.viols or r.reports or r.rc != 0 for r in sres):
-        c.viol = []
-        raise core.HarnessError("tablebase oracle failed its own Bellman check; see ./check C12")
+    global ORACLE_TAG
+    ORACLE_TAG = "C13"
+    st = c12.solve(c, all_classes, ORACLE_TAG)     # independent of the engine's generator: a broken generator shows up as wrong engine output here
     c.samples = []
-    nroots = int((96 if quick else 3000) * c.scale)
-    per = 6
+    nroots = int((448 if quick else 12000) * c.scale)
+    per = 14        # the table of a class is generated once per process and reused, so further roots of the class are cheap
     jobs = []
     for i in range(max(1, nroots // per)):
-        cl = three if i % 2 == 0 else four
+        # 4-men jobs start in a class assigned round-robin (every class gets whole jobs) and switch class now and then (table replacement)
+        cl = three if i % 2 == 0 else ([four[(i // 2) % len(four)]] * 3 + four)
         jobs.append((c.seed * 10000 + i, cl, all_classes, per))
     zones, tot, incon = {}, 0, 0
     boundary = 0
@@ -245,13 +250,13 @@ def run(c):
                 c.sample(s)
     c.evaluations = tot
     c.distinct = len(fens)
-    c.rule = ("one case = one 'go infinite' + stop on a random legal placement of a pawnless <=4-men class (3-men classes and 4-men classes from the verified dumps) with "
+    c.rule = ("one case = one 'go infinite' + stop on a random legal placement of a pawnless <=4-men class (3-men classes and 4-men classes, oracle = independent retrograde solution) with "
               "half-move clock in {0, 1..60, 60..99, 90..99} and, for 45% of the decisive roots, within +-2 of the clock at which the table's mate just fits before the 50-move limit, Hash in {8,16,64}, Threads 1..4, several roots per process (table reuse/replacement), 30% of 4-men roots "
               "preceded by a search stopped during table generation; judged: exact 'mate N' inside the 50-move margin, cp score on drawn roots, successor of bestmove keeps "
               "the value (shortest win / longest defence / no draw->loss), no mate score beyond the 50-move limit (3-men classes; 4-men: only N >= DTM). "
               "distinct_nontrivial = distinct root FENs that produced tablebase output")
     c.extra.update(roots_at_the_50_move_margin=boundary, zones=zones, searches_without_tb_output=incon, oracle_classes=all_classes, oracle_positions_verified=st.get("positions_checked", 0), exhaustive=False)
     c.extra["inconclusive_allowed"] = 10 ** 9
-    c.assumptions += ["DTM oracle = dumps that passed the exhaustive Bellman check in this run (h_tb sweep)", "4-men roots beyond the 50-move margin are not judged for exactness"]
+    c.assumptions += ["DTM oracle = independent retrograde solution (h_tb solve: mini rules engine only, no engine code) that passed the exhaustive forward Bellman self-check in this run", "4-men roots beyond the 50-move margin are not judged for exactness"]
     if zones.get("exact", 0) == 0:
         raise core.HarnessError("no exact-zone case observed")
